@@ -121,6 +121,7 @@ class sptenmat:
             "Incorrect specification of dimensions, the sorted concatenation of "
             "rdims and cdims must be range(len(tshape))."
         )
+        assert subs.size == 0 or np.min(subs) >= 0, "Invalid (negative) index."
         assert subs.size == 0 or np.prod(np.array(tshape)[rdims]) > np.max(
             subs[:, 0]
         ), "Invalid row index."
